@@ -159,6 +159,21 @@ def helpers_sweep(tier="quick", seed=0):
             S.run("max_element", vals, lambda: tuple(uint(x) for x in std.max_element(lst)), (vals.index(mx), mx))
             if n >= 2:
                 S.run("minimum(*args)", vals, lambda: uint(std.minimum(*lst)), mn)
+                S.run("maximum(*args)", vals, lambda: uint(std.maximum(*lst)), mx)
+            if n <= 3:
+                # key= and cmp= are honoured by every spelling (list and varargs): an order-reversing key swaps
+                # minimum and maximum; ties resolve to the first element
+                rev = lambda x: ~x  # Unsigned[2]: 3 - x
+                S.run("minimum(key)", vals, lambda: uint(std.minimum(lst, key=rev)), mx)
+                S.run("maximum(key)", vals, lambda: uint(std.maximum(lst, key=rev)), mn)
+                S.run("min_element(key)", vals, lambda: tuple(uint(x) for x in std.min_element(lst, key=rev)), (vals.index(mx), mx))
+                S.run("max_element(key)", vals, lambda: tuple(uint(x) for x in std.max_element(lst, key=rev)), (vals.index(mn), mn))
+                S.run("min_index(key)", vals, lambda: uint(std.min_index(lst, key=rev)), vals.index(mx))
+                S.run("max_index(key)", vals, lambda: uint(std.max_index(lst, key=rev)), vals.index(mn))
+                if n >= 2:
+                    S.run("minimum(*args,key)", vals, lambda: uint(std.minimum(*lst, key=rev)), mx)
+                    S.run("maximum(*args,key)", vals, lambda: uint(std.maximum(*lst, key=rev)), mn)
+                    S.run("minimum(*args,cmp)", vals, lambda: uint(std.minimum(*lst, cmp=lambda a, b: a > b)), mx)
     # clamp
     U4 = Unsigned[4]
     for v, lo, hi in itertools.product(range(16), range(0, 16, 3), range(0, 16, 3)):
